@@ -357,8 +357,9 @@ THOROUGH_GRID = False
 
 def grid():
     out = []
-    years = (1900, 1917, 1941, 1969, 1970, 1987, 1999, 2000, 2007, 2015, 2020, 2024, 2037, 2050, 2099) if THOROUGH_GRID \
-        else (1917, 1970, 2000, 2015, 2024, 2050)
+    # (1800 and 2200: before the first / after the last transition of every 32-bit table -> ttinfo_before / ttinfo_std)
+    years = (1800, 1900, 1917, 1941, 1969, 1970, 1987, 1999, 2000, 2007, 2015, 2020, 2024, 2037, 2050, 2099, 2200) if THOROUGH_GRID \
+        else (1800, 1917, 1970, 2000, 2015, 2024, 2050, 2200)
     days = ((1, 0, 30), (9, 2, 30), (14, 1, 59), (28, 12, 0), (25, 1, 30), (31, 23, 59)) if THOROUGH_GRID \
         else ((9, 2, 30), (28, 1, 30), (31, 23, 59))
     for y in years:
@@ -384,7 +385,10 @@ def behaviour(z, g=None):
     for dt in g:
         for fold in (0, 1):
             a = dt.replace(tzinfo=z, fold=fold)
-            out.append((a.utcoffset(), a.dst(), a.tzname()))
+            try:
+                out.append((a.utcoffset(), a.dst(), a.tzname()))
+            except Exception as ex:      # noqa
+                out.append(("raised", type(ex).__name__, None))
         try:
             out.append(z.fromutc(dt.replace(tzinfo=z)).replace(tzinfo=None))
         except Exception as ex:      # noqa
